@@ -96,10 +96,7 @@ from . import protocols  # NOQA
 
 def rlc_to_mce(code):
     if isinstance(code[0], list):
-        for i, rlc in enumerate(code):
-            if rlc:
-                rlc = _build_mce_rlc(rlc)
-            code[i] = rlc
+        code = [_build_mce_rlc(rlc) for rlc in code]
     else:
         code = _build_mce_rlc(code)
 
